@@ -5,25 +5,114 @@ open Emitter
 /-- ssids are well-formed for `NewID` when they have at least two words -/
 def ssidOk (s : Ssid) : Prop := 2 ≤ s.length
 
+/-! ### helper lemmas: message ids -/
+
+theorem ssidBytes_length (s : Ssid) : (ssidBytes s).length = 4 * s.length := by
+  induction s with
+  | nil => rfl
+  | cons w ws ih => simp [ssidBytes, putBe32, ih]; omega
+
+theorem ssidOfBytes_ssidBytes (s : Ssid) : ssidOfBytes s.length (ssidBytes s) = s := by
+  induction s with
+  | nil => rfl
+  | cons w ws ih =>
+    simp only [ssidBytes, putBe32, List.length_cons, List.cons_append, List.nil_append, ssidOfBytes, ih,
+      be32_putBe32]
+
+theorem newId_words (ssid : Ssid) (unix : Int) (seq uniq : UInt32) (id : Bytes)
+    (h : newId ssid unix seq uniq = .ok id) :
+    word id 4 = maxU32 - relTime unix ∧ word id 8 = maxU32 - seq ∧ word id 12 = uniq ∧
+    word id 16 = ssid.getD 0 0 ∧ id.drop 16 = ssidBytes ssid ∧ id.length = 16 + 4 * ssid.length ∧
+    2 ≤ ssid.length := by
+  match ssid, h with
+  | s0 :: s1 :: tl, h =>
+    simp only [newId, Outcome.ok.injEq] at h
+    subst h
+    refine ⟨?_, ?_, ?_, ?_, ?_, ?_, ?_⟩
+    · simp only [word, putBe32, List.cons_append, List.nil_append, List.getD_cons_succ, List.getD_cons_zero, be32_putBe32, Nat.reduceAdd]
+    · simp only [word, putBe32, List.cons_append, List.nil_append, List.getD_cons_succ, List.getD_cons_zero, be32_putBe32, Nat.reduceAdd]
+    · simp only [word, putBe32, List.cons_append, List.nil_append, List.getD_cons_succ, List.getD_cons_zero, be32_putBe32, Nat.reduceAdd]
+    · simp only [word, putBe32, ssidBytes, List.cons_append, List.nil_append, List.getD_cons_succ, List.getD_cons_zero, be32_putBe32, Nat.reduceAdd]
+    · simp [putBe32]
+    · simp [putBe32, ssidBytes_length]; omega
+    · simp
+
+theorem maxU32_sub_sub (x : UInt32) : maxU32 - (maxU32 - x) = x := by
+  apply UInt32.toNat.inj
+  have := x.toNat_lt
+  simp [maxU32, UInt32.toNat_sub]
+  omega
+
+theorem maxU32_sub_inj (x y : UInt32) (h : maxU32 - x = maxU32 - y) : x = y := by
+  rw [← maxU32_sub_sub x, h, maxU32_sub_sub]
+
+theorem relTime_toNat (unix : Int) (h0 : timeOffset ≤ unix) (h1 : unix - timeOffset < 4294967296) :
+    ((relTime unix).toNat : Int) = unix - timeOffset := by
+  simp [relTime, UInt32.toNat_ofNat']
+  omega
+
 theorem idTime_newId (ssid : Ssid) (unix : Int) (seq uniq : UInt32) (id : Bytes)
     (h : newId ssid unix seq uniq = .ok id) (h0 : timeOffset ≤ unix) (h1 : unix - timeOffset < 4294967296) :
     idTime id = unix := by
-  sorry
+  have hw := (newId_words ssid unix seq uniq id h).1
+  unfold idTime
+  rw [hw, maxU32_sub_sub, relTime_toNat unix h0 h1]
+  omega
 
 theorem idSsid_newId (ssid : Ssid) (unix : Int) (seq uniq : UInt32) (id : Bytes)
     (h : newId ssid unix seq uniq = .ok id) :
     idSsid id = ssid ∧ idContract id = ssid.getD 0 0 ∧ id.length = fixed + 4 * ssid.length := by
-  sorry
+  obtain ⟨_, _, _, h16, hd, hl, _⟩ := newId_words ssid unix seq uniq id h
+  have hf : fixed = 16 := rfl
+  refine ⟨?_, ?_, ?_⟩
+  · unfold idSsid
+    rw [hf, hd, hl]
+    have : (16 + 4 * ssid.length - 16) / 4 = ssid.length := by omega
+    rw [this, ssidOfBytes_ssidBytes]
+  · unfold idContract; rw [hf, h16]
+  · rw [hf, hl]
 
 theorem newId_ok_iff (ssid : Ssid) (unix : Int) (seq uniq : UInt32) :
     (∃ id, newId ssid unix seq uniq = .ok id) ↔ 2 ≤ ssid.length := by
-  sorry
+  constructor
+  · rintro ⟨id, h⟩
+    exact (newId_words ssid unix seq uniq id h).2.2.2.2.2.2
+  · intro h
+    match ssid, h with
+    | s0 :: s1 :: tl, _ => exact ⟨_, rfl⟩
 
 /-- ids are equal only if clock second, sequence number, nonce and ssid all are -/
 theorem newId_injective (s₁ s₂ : Ssid) (u₁ u₂ : Int) (q₁ q₂ n₁ n₂ : UInt32) (id : Bytes)
     (h₁ : newId s₁ u₁ q₁ n₁ = .ok id) (h₂ : newId s₂ u₂ q₂ n₂ = .ok id) :
     relTime u₁ = relTime u₂ ∧ q₁ = q₂ ∧ n₁ = n₂ ∧ s₁ = s₂ := by
-  sorry
+  obtain ⟨a1, b1, c1, _, _, _, _⟩ := newId_words s₁ u₁ q₁ n₁ id h₁
+  obtain ⟨a2, b2, c2, _, _, _, _⟩ := newId_words s₂ u₂ q₂ n₂ id h₂
+  refine ⟨maxU32_sub_inj _ _ (a1.symm.trans a2), maxU32_sub_inj _ _ (b1.symm.trans b2), c1.symm.trans c2, ?_⟩
+  rw [← (idSsid_newId s₁ u₁ q₁ n₁ id h₁).1, ← (idSsid_newId s₂ u₂ q₂ n₂ id h₂).1]
+
+theorem bytesLt_cons (a b : UInt8) (as bs : Bytes) :
+    bytesLt (a :: as) (b :: bs) = true ↔ a.toNat < b.toNat ∨ (a.toNat = b.toNat ∧ bytesLt as bs = true) := by
+  simp [bytesLt, UInt8.lt_iff_toNat_lt, ← UInt8.toNat_inj]
+
+theorem bytesLt_append (p a b : Bytes) : bytesLt (p ++ a) (p ++ b) = bytesLt a b := by
+  induction p with
+  | nil => rfl
+  | cons x xs ih => simp [bytesLt, ih]
+
+theorem digits32 (a : Nat) (h : a < 4294967296) :
+    ∃ a3 a2 a1 a0, a3 < 256 ∧ a2 < 256 ∧ a1 < 256 ∧ a0 < 256 ∧
+      a = a3 * 16777216 + a2 * 65536 + a1 * 256 + a0 ∧
+      a / 16777216 % 256 = a3 ∧ a / 65536 % 256 = a2 ∧ a / 256 % 256 = a1 ∧ a % 256 = a0 :=
+  ⟨a / 16777216, a / 65536 % 256, a / 256 % 256, a % 256, by omega, by omega, by omega, by omega,
+    by omega, by omega, rfl, rfl, rfl⟩
+
+theorem bytesLt_putBe32 (x y : UInt32) (r₁ r₂ : Bytes) (h : x.toNat < y.toNat) :
+    bytesLt (putBe32 x ++ r₁) (putBe32 y ++ r₂) = true := by
+  simp only [putBe32, List.cons_append, List.nil_append, bytesLt_cons, UInt8.toNat_ofNat']
+  obtain ⟨a3, a2, a1, a0, _, _, _, _, ea, e3, e2, e1, e0⟩ := digits32 x.toNat x.toNat_lt
+  obtain ⟨b3, b2, b1, b0, _, _, _, _, eb, f3, f2, f1, f0⟩ := digits32 y.toNat y.toNat_lt
+  rw [e3, e2, e1, e0, f3, f2, f1, f0]
+  omega
 
 /-- ids of one channel created in a later second sort first; within one second a larger
 sequence number (no wrap in between) sorts first -/
@@ -31,26 +120,173 @@ theorem newId_order (ssid : Ssid) (u₁ u₂ : Int) (q₁ q₂ n : UInt32) (a b 
     (ha : newId ssid u₁ q₁ n = .ok a) (hb : newId ssid u₂ q₂ n = .ok b)
     (h0 : timeOffset ≤ u₁) (h1 : u₂ - timeOffset < 4294967296)
     (hlt : u₁ < u₂ ∨ (u₁ = u₂ ∧ q₁ < q₂)) : bytesLt b a = true := by
-  sorry
+  match ssid, ha, hb with
+  | s0 :: s1 :: tl, ha, hb =>
+    simp only [newId, Outcome.ok.injEq] at ha hb
+    subst ha hb
+    simp only [List.append_assoc, bytesLt_append]
+    rcases hlt with hlt | ⟨rfl, hq⟩
+    · apply bytesLt_putBe32
+      have e1 := relTime_toNat u₁ h0 (by omega)
+      have e2 := relTime_toNat u₂ (by omega) h1
+      have := (relTime u₁).toNat_lt
+      have := (relTime u₂).toNat_lt
+      simp only [maxU32, UInt32.toNat_sub]
+      simp
+      omega
+    · rw [bytesLt_append]
+      apply bytesLt_putBe32
+      have := q₁.toNat_lt
+      have := q₂.toNat_lt
+      have hq' := UInt32.lt_iff_toNat_lt.mp hq
+      simp only [maxU32, UInt32.toNat_sub]
+      simp
+      omega
+
+theorem readUvarintF_uvarintF (fuel : Nat) : ∀ (n shift acc : Nat) (rest : Bytes),
+    1 ≤ fuel → shift + 7 * fuel = 70 → n * 2 ^ shift < 2 ^ 64 →
+    readUvarintF fuel (uvarintF fuel n ++ rest) shift acc = .ok (acc + n * 2 ^ shift, rest) := by
+  induction fuel with
+  | zero => intro n shift acc rest h; omega
+  | succ k ih =>
+    intro n shift acc rest _ hs hn
+    unfold uvarintF
+    by_cases hlt : n < 128
+    · have hb : (UInt8.ofNat n).toNat = n := by simp [UInt8.toNat_ofNat']; omega
+      have hb' : UInt8.ofNat n < 0x80 := by
+        rw [UInt8.lt_iff_toNat_lt, hb]; exact hlt
+      simp only [hlt, if_true, List.cons_append, List.nil_append, readUvarintF, hb', hb]
+      have : ¬ ((shift == 63 && UInt8.ofNat n > 1) = true) := by
+        intro hc
+        simp only [Bool.and_eq_true, beq_iff_eq, decide_eq_true_eq] at hc
+        obtain ⟨h63, h1⟩ := hc
+        have h1' : 1 < n := by
+          have := UInt8.lt_iff_toNat_lt.mp h1
+          rw [hb] at this; exact this
+        subst h63
+        omega
+      simp [this]
+    · have hb : (UInt8.ofNat (n % 128 + 128)).toNat = n % 128 + 128 := by
+        simp [UInt8.toNat_ofNat']; omega
+      have hb' : ¬ (UInt8.ofNat (n % 128 + 128) < 0x80) := by
+        rw [UInt8.lt_iff_toNat_lt, hb]; simp
+      simp only [hlt, if_false, List.cons_append, readUvarintF, hb', hb]
+      have hk : 1 ≤ k := by
+        rcases k with _ | k
+        · exfalso
+          have : shift = 63 := by omega
+          subst this; omega
+        · omega
+      have hp : 2 ^ (shift + 7) = 2 ^ shift * 128 := by rw [Nat.pow_add]
+      have hdm := Nat.div_add_mod n 128
+      have key : n % 128 * 2 ^ shift + n / 128 * 2 ^ (shift + 7) = n * 2 ^ shift := by
+        rw [hp]
+        generalize 2 ^ shift = p
+        calc n % 128 * p + n / 128 * (p * 128) = (128 * (n / 128) + n % 128) * p := by
+              rw [Nat.add_mul, Nat.add_comm, Nat.mul_comm p 128, ← Nat.mul_assoc, Nat.mul_comm (n/128) 128]
+          _ = n * p := by rw [hdm]
+      rw [ih (n / 128) (shift + 7) _ rest hk (by omega) (by
+        have : n / 128 * 2 ^ (shift + 7) ≤ n * 2 ^ shift := by rw [← key]; omega
+        omega)]
+      congr 2
+      have : n % 128 + 128 - 128 = n % 128 := by omega
+      rw [this, Nat.add_assoc, key]
 
 theorem readUvarint_uvarint (n : Nat) (h : n < 18446744073709551616) (rest : Bytes) :
     readUvarint (uvarint n ++ rest) = .ok (n, rest) := by
-  sorry
+  have := readUvarintF_uvarintF 10 n 0 0 rest (by omega) (by omega) (by omega)
+  simpa [readUvarint, uvarint] using this
 
 /-- lengths that fit a Go `int` -/
 def Msg.ok (m : Msg) : Prop :=
   m.id.length < 9223372036854775808 ∧ m.channel.length < 9223372036854775808 ∧
   m.payload.length < 9223372036854775808
 
+theorem readBytes_enc (l : Bytes) (h : l.length < 9223372036854775808) (rest : Bytes) :
+    readBytes (uvarint l.length ++ (l ++ rest)) = .ok (l, rest) := by
+  unfold readBytes
+  rw [readUvarint_uvarint _ (by omega)]
+  by_cases h0 : l.length = 0
+  · have : l = [] := List.eq_nil_of_length_eq_zero h0
+    subst this
+    simp
+  · have h1 : ¬ (l.length ≥ 9223372036854775808) := by omega
+    simp [h0, h1]
+
 theorem decodeMsg_encodeMsg (m : Msg) (h : m.ok) (rest : Bytes) :
     decodeMsg (encodeMsg m ++ rest) = .ok (m, rest) := by
-  sorry
+  obtain ⟨h1, h2, h3⟩ := h
+  have ht := m.ttl.toNat_lt
+  have httl : UInt32.ofNat (m.ttl.toNat % 4294967296) = m.ttl := by
+    apply UInt32.toNat.inj
+    simp
+  unfold decodeMsg encodeMsg
+  simp only [List.append_assoc, bind, Outcome.bind, readBytes_enc _ h1, readBytes_enc _ h2,
+    readBytes_enc _ h3, readUvarint_uvarint _ (show m.ttl.toNat < 18446744073709551616 by omega), pure, httl]
+
+theorem decodeMsgs_encodeMsgs (f : List Msg) (h : ∀ m ∈ f, m.ok) (rest : Bytes) :
+    decodeMsgs f.length (encodeMsgs f ++ rest) = .ok (f, rest) := by
+  induction f with
+  | nil => rfl
+  | cons m ms ih =>
+    simp only [List.length_cons, decodeMsgs, encodeMsgs, List.append_assoc,
+      decodeMsg_encodeMsg m (h m (by simp)), ih (fun x hx => h x (by simp [hx]))]
 
 theorem decodeFrame_encodeFrame (f : List Msg) (h : ∀ m ∈ f, m.ok) (hl : f.length ≤ maxSliceLen) :
     decodeFrame (encodeFrame f) = .ok f := by
-  sorry
+  have hl' : f.length ≤ 1099511627776 := hl
+  unfold decodeFrame encodeFrame
+  rw [readUvarint_uvarint _ (by omega)]
+  by_cases h0 : f.length = 0
+  · have : f = [] := List.eq_nil_of_length_eq_zero h0
+    subst this; simp
+  · have h1 : ¬ (f.length > maxSliceLen) := by omega
+    have := decodeMsgs_encodeMsgs f h []
+    rw [List.append_nil] at this
+    simp [h0, h1, this, Outcome.map, Outcome.bind]
 
 def sizeSum (l : List Msg) : Nat := (l.map msgSize).foldl (· + ·) 0
+
+theorem foldl_add_acc (l : List Nat) (a : Nat) : l.foldl (· + ·) a = a + l.foldl (· + ·) 0 := by
+  induction l generalizing a with
+  | nil => simp
+  | cons x xs ih => simp only [List.foldl_cons]; rw [ih (a + x), ih (0 + x)]; omega
+
+theorem sizeSum_nil : sizeSum [] = 0 := rfl
+
+theorem sizeSum_cons (m : Msg) (l : List Msg) : sizeSum (m :: l) = msgSize m + sizeSum l := by
+  simp only [sizeSum, List.map_cons, List.foldl_cons]
+  rw [foldl_add_acc]; omega
+
+theorem splitAux_sound (max : Nat) (f : List Msg) : ∀ sum : Nat,
+    (splitAux max sum f).1 ++ (splitAux max sum f).2 = f ∧
+    ((splitAux max sum f).1 ≠ [] → sum + sizeSum (splitAux max sum f).1 < max) ∧
+    ((splitAux max sum f).1 = [] → f = [] ∨ ∃ m rest, f = m :: rest ∧ max ≤ sum + msgSize m) ∧
+    (∀ m rest, (splitAux max sum f).2 = m :: rest →
+      max ≤ sum + sizeSum (splitAux max sum f).1 + msgSize m) := by
+  induction f with
+  | nil => intro sum; simp [splitAux]
+  | cons x xs ih =>
+    intro sum
+    unfold splitAux
+    by_cases hge : sum + msgSize x ≥ max
+    · simp only [hge, if_true]
+      refine ⟨rfl, fun h => absurd rfl h, fun _ => Or.inr ⟨x, xs, rfl, hge⟩, ?_⟩
+      intro m rest hm
+      simp only [List.cons.injEq] at hm
+      rw [← hm.1, sizeSum_nil]; omega
+    · simp only [hge, if_false]
+      obtain ⟨i1, i2, i3, i4⟩ := ih (sum + msgSize x)
+      refine ⟨by simp [i1], ?_, ?_, ?_⟩
+      · intro _
+        rw [sizeSum_cons]
+        by_cases he : (splitAux max (sum + msgSize x) xs).1 = []
+        · rw [he, sizeSum_nil]; omega
+        · have := i2 he; omega
+      · intro h; simp at h
+      · intro m rest hm
+        have := i4 m rest hm
+        rw [sizeSum_cons]; omega
 
 /-- `Frame.Split`: nothing dropped, duplicated or reordered; the head stays below the bound;
 the head is empty only for an empty frame or a first message at or above the bound; the head
@@ -60,14 +296,67 @@ theorem split_sound (f : List Msg) (max : Nat) :
     ((split f max).1 ≠ [] → sizeSum (split f max).1 < max) ∧
     ((split f max).1 = [] → f = [] ∨ ∃ m rest, f = m :: rest ∧ max ≤ msgSize m) ∧
     (∀ m rest, (split f max).2 = m :: rest → max ≤ sizeSum (split f max).1 + msgSize m) := by
-  sorry
+  have := splitAux_sound max f 0
+  simpa [split] using this
+
+theorem flushLoop_sound_aux (max : Nat) (fuel : Nat) : ∀ f : List Msg, f.length ≤ fuel →
+    (flushLoop max fuel f).1.flatten = f ∧ (flushLoop max fuel f).2 = [] ∧
+    (∀ c ∈ (flushLoop max fuel f).1, c ≠ [] ∧ (sizeSum c < max ∨ ∃ m, c = [m] ∧ max ≤ msgSize m)) := by
+  induction fuel with
+  | zero =>
+    intro f hf
+    have : f = [] := List.eq_nil_of_length_eq_zero (by omega)
+    subst this
+    simp [flushLoop]
+  | succ k ih =>
+    intro f hf
+    obtain ⟨s1, s2, s3, _⟩ := split_sound f max
+    unfold flushLoop
+    generalize hsp : split f max = sp at s1 s2 s3
+    obtain ⟨chunk, rest⟩ := sp
+    simp only at s1 s2 s3 ⊢
+    by_cases hc : chunk = []
+    · subst hc
+      simp only [List.nil_append] at s1
+      subst s1
+      simp only [List.isEmpty_nil, if_true]
+      match rest, s3 rfl, hf with
+      | [], _, _ => simp
+      | m :: rest', s3, hf =>
+        have hm : max ≤ msgSize m := by
+          rcases s3 with h | ⟨m', r', he, hle⟩
+          · cases h
+          · cases he; exact hle
+        obtain ⟨j1, j2, j3⟩ := ih rest' (by simp at hf; omega)
+        refine ⟨by simp [j1], j2, ?_⟩
+        intro c hcm
+        simp only [List.mem_cons] at hcm
+        rcases hcm with rfl | hcm
+        · exact ⟨by simp, Or.inr ⟨m, rfl, hm⟩⟩
+        · exact j3 c hcm
+    · have hne : chunk.isEmpty = false := by
+        cases chunk with
+        | nil => exact absurd rfl hc
+        | cons _ _ => rfl
+      simp only [hne, Bool.false_eq_true, if_false]
+      have hlen : rest.length ≤ k := by
+        have : f.length = chunk.length + rest.length := by rw [← s1, List.length_append]
+        have : 0 < chunk.length := List.length_pos_iff.mpr hc
+        omega
+      obtain ⟨j1, j2, j3⟩ := ih rest hlen
+      refine ⟨by simp [j1, s1], j2, ?_⟩
+      intro c hcm
+      simp only [List.mem_cons] at hcm
+      rcases hcm with rfl | hcm
+      · exact ⟨hc, Or.inl (s2 hc)⟩
+      · exact j3 c hcm
 
 /-- one flush hands every message of the frame to the transport, once and in order, in
 non-empty chunks that respect the bound unless they consist of a single oversize message -/
 theorem flushLoop_sound (max : Nat) (f : List Msg) :
     (flushLoop max f.length f).1.flatten = f ∧ (flushLoop max f.length f).2 = [] ∧
-    (∀ c ∈ (flushLoop max f.length f).1, c ≠ [] ∧ (sizeSum c < max ∨ ∃ m, c = [m] ∧ max ≤ msgSize m)) := by
-  sorry
+    (∀ c ∈ (flushLoop max f.length f).1, c ≠ [] ∧ (sizeSum c < max ∨ ∃ m, c = [m] ∧ max ≤ msgSize m)) :=
+  flushLoop_sound_aux max f.length f (Nat.le_refl _)
 
 inductive PeerOp where
   | send (active : Bool) (m : Msg)
@@ -84,12 +373,32 @@ def accepted : List PeerOp → List Msg
   | .send true m :: ops => m :: accepted ops
   | _ :: ops => accepted ops
 
+theorem Peer.flush_inv (max : Nat) (p : Peer) :
+    (p.flush max).sent.flatten ++ (p.flush max).frame = p.sent.flatten ++ p.frame ∧
+    (p.flush max).dropped = p.dropped := by
+  unfold Peer.flush
+  by_cases he : p.frame.isEmpty = true
+  · simp [he]
+  · obtain ⟨j1, j2, _⟩ := flushLoop_sound max p.frame
+    simp [he, j1, j2]
+
 /-- for every sequence of the atomic steps of `Peer.Send` and `processSendQueue`: what has
 reached the transport followed by what is still queued is exactly the accepted messages -/
 theorem queue_exactly_once (max : Nat) (ops : List PeerOp) (p : Peer) :
     ((ops.foldl (Peer.step max) p).sent.flatten ++ (ops.foldl (Peer.step max) p).frame
       = p.sent.flatten ++ p.frame ++ accepted ops) ∧
     ((ops.foldl (Peer.step max) p).dropped = p.dropped) := by
-  sorry
+  induction ops generalizing p with
+  | nil => simp [accepted]
+  | cons op ops ih =>
+    simp only [List.foldl_cons]
+    obtain ⟨i1, i2⟩ := ih (Peer.step max p op)
+    rw [i1, i2]
+    cases op with
+    | flush =>
+      obtain ⟨f1, f2⟩ := Peer.flush_inv max p
+      simp only [Peer.step, accepted, f1, f2, and_self]
+    | send a m =>
+      cases a <;> simp [Peer.step, Peer.send, accepted]
 
 end Emitter.Message
